@@ -153,6 +153,7 @@ type caseIn struct {
 	// bomb: a single compressed packet whose body inflates to Inflated bytes of Fill
 	Ty       int `json:"ty"`
 	Inflated int `json:"inflated"`
+	BadJSON  bool `json:"badjson,omitempty"` // bomb on a command-carrying type: the inflated body is NOT JSON (bytes 0x01): the frame is refused; the refusal must stay within the allocation bound too
 	// dispatch: one packet handed directly to HandlePacket
 	Payload string                `json:"payload"`
 	Cmd     *packet.CommandPacket `json:"cmd,omitempty"`
@@ -221,6 +222,78 @@ func freshDispatch(tp *packet.TransferPacket, out *caseOut) {
 	}
 	out.Dispatched++
 	out.DispErr = append(out.DispErr, herr != nil)
+}
+
+// stallConn: a peer that sends but never reads: every Write blocks until the transport is closed
+type stallConn struct{ *fakeConn }
+
+func (s *stallConn) Write(p []byte) (int, error) {
+	<-s.closed
+	return 0, io.ErrClosedPipe
+}
+
+// runStall: an unauthenticated peer A sends packets that make the server answer (heartbeat, handshake, command) and never reads
+// the answers, so the server's reply write on A stalls.  That may hold up A's own dispatch, but it must not block the server:
+// packets of a fresh, unrelated connection B must still be dispatched promptly, and connections must still be accepted and closed.
+func runStall(c caseIn, out *caseOut) {
+	connSeq++
+	fa := &stallConn{newFakeConn(fmt.Sprintf("198.19.%d.%d", (connSeq/250)%250, connSeq%250+1))}
+	connA, err := fx.Session.CreateConnection(fa, fa)
+	if err != nil {
+		out.PropOK, out.PropMsg = false, "CreateConnection: "+err.Error()
+		return
+	}
+	aDone := make(chan struct{})
+	go func() {
+		defer close(aDone)
+		defer func() { recover() }()
+		tp := &packet.TransferPacket{PacketType: packet.Type(c.Ty), Payload: unhx(c.Payload), CommandPacket: c.Cmd}
+		_ = fx.Session.HandlePacket(&types.StreamPacket{ConnectionID: connA.ID, Packet: tp, Timestamp: time.Now()})
+	}()
+	time.Sleep(30 * time.Millisecond) // let A's dispatch reach its reply write (or finish)
+	bDone := make(chan string, 1)
+	go func() {
+		defer func() {
+			if r := recover(); r != nil {
+				bDone <- fmt.Sprintf("panic: %v", r)
+			}
+		}()
+		connSeq++
+		fb := newFakeConn(fmt.Sprintf("198.19.%d.%d", (connSeq/250)%250, connSeq%250+1))
+		defer fb.Close()
+		connB, err := fx.Session.CreateConnection(fb, fb)
+		if err != nil {
+			bDone <- ""
+			return
+		}
+		for _, ty := range []byte{0x03, 0x01, 0x20} {
+			_ = fx.Session.HandlePacket(&types.StreamPacket{ConnectionID: connB.ID,
+				Packet: &packet.TransferPacket{PacketType: packet.Type(ty), Payload: []byte("{}")}, Timestamp: time.Now()})
+		}
+		_ = fx.Session.ListConnections()
+		_ = fx.Session.CloseConnection(connB.ID)
+		bDone <- ""
+	}()
+	select {
+	case p := <-bDone:
+		if p != "" {
+			out.Panicked = p
+		}
+	case <-time.After(4 * time.Second):
+		out.TimedOut = true
+		out.PropMsg = fmt.Sprintf("a peer that sent a packet of type %#x and does not read the reply blocks the server: dispatch, listing and close of an UNRELATED fresh connection did not finish within 4s", byte(c.Ty))
+	}
+	fa.Close() // the stalled write fails now
+	select {
+	case <-aDone:
+	case <-time.After(4 * time.Second):
+		if !out.TimedOut {
+			out.TimedOut = true
+			out.PropMsg = fmt.Sprintf("dispatch of a packet of type %#x did not return within 4s after its transport was closed", byte(c.Ty))
+		}
+	}
+	_ = fx.Session.CloseConnection(connA.ID)
+	out.Dispatched = 1
 }
 
 // runRetain: the same pre-auth packet dispatched Reps times on ONE unauthenticated connection; the heap retained
@@ -469,6 +542,12 @@ func runCase(raw json.RawMessage) interface{} {
 				chunk[i] = ' '
 			}
 		}
+		if c.BadJSON {
+			isCmd = false
+			for i := range chunk {
+				chunk[i] = 1
+			}
+		}
 		left := c.Inflated
 		for left > 0 {
 			k := len(chunk)
@@ -496,6 +575,8 @@ func runCase(raw json.RawMessage) interface{} {
 		out.WireLen = len(wire)
 	case "retain":
 		runRetain(c, out)
+	case "stall":
+		runStall(c, out)
 	case "loop":
 		wire := unhx(c.Wire)
 		runLoop(wire, c.Cuts, out)
